@@ -115,11 +115,30 @@ impl<'a, 'b> RealBody<'a, 'b> {
         for _ in 0..n {
             if self.budget == 0 { break; }
             self.budget -= 1;
-            let k = self.t.below(14);
+            let k = self.t.below(if self.lang.has_difficulty { 16 } else { 14 });
             let diff = if self.lang.has_difficulty && self.t.chance(1, 8) { self.feat("difficulty_label"); format!("{{\"{}\"}}: ", *self.t.pick(&["0", "1", "01", "23", "3", "*"])) } else { String::new() };
             match k {
                 0..=5 => { if let Some(c) = self.raw_call() { out.push_str(&format!("{}{}{}\n", pad, diff, c)); } }
                 6 => { let l = self.time_label(); out.push_str(&format!("{}\n", l)); }
+                14 | 15 if self.lang.has_difficulty => {
+                    // a difficulty ladder: the same instruction once per difficulty with different arguments (what the
+                    // decompiler folds into a difficulty switch), sometimes with a hole, a repeated mask or a time label inside
+                    self.feat("difficulty_ladder");
+                    let ops: Vec<u16> = self.lang.sigs.iter().filter(|(op, sig)| !self.lang.intrinsic_ops.contains(op) && !sig.params.iter().any(|p| matches!(p.kind, PKind::Off | PKind::Time) || p.is_string()) && !sig.real_params().is_empty()).map(|(op, _)| *op).collect();
+                    if !ops.is_empty() {
+                        let op = *self.t.pick(&ops);
+                        let sig = self.lang.sigs[&op].clone();
+                        let n = 2 + self.t.below(3);
+                        let mut d = self.t.below(2);
+                        for i in 0..n {
+                            if i > 0 && self.t.chance(1, 5) { self.feat("ladder_time_break"); let l = self.time_label(); out.push_str(&format!("{}\n", l)); }
+                            let args: Vec<String> = sig.real_params().iter().map(|p| { let a = gen_arg(self.t, p, false, false); let a = match a { Arg::I(v) if self.lang.eosd_regs && (-10025..=-10001).contains(&v) => Arg::I(7), Arg::F(x) if self.lang.eosd_regs && (-10025.0..=-10001.0).contains(&x) => Arg::F(7.0), a => a }; print_arg(&a, p) }).collect();
+                            out.push_str(&format!("{}{{\"{}\"}}: ins_{}({});\n", pad, d, op, args.join(", ")));
+                            d += if self.t.chance(1, 6) { 2 } else if self.t.chance(1, 8) { 0 } else { 1 };
+                            if d > 7 { break; }
+                        }
+                    }
+                }
                 7 if self.lang.has_interrupt => { self.feat("interrupt"); out.push_str(&format!("{}interrupt[{}]:\n", pad, self.t.below(8))); }
                 8 if self.opts.control_flow && self.lang.has_jmp => {
                     // forward or backward goto
@@ -357,7 +376,8 @@ pub fn gen_file(t: &mut Tape, fmt: Fmt, game: &str, body_stmts: usize) -> GenFil
 // (time, opcode, blob[, mask / arg0 / difficulty]) recorded alongside.
 
 #[derive(Clone, Debug)]
-pub struct ReqInstr { pub time: i64, pub opcode: i64, pub blob: Vec<u8>, pub mask: Option<i64>, pub arg0: Option<i64> }
+pub struct ReqInstr { pub time: i64, pub opcode: i64, pub blob: Vec<u8>, pub mask: Option<i64>, pub arg0: Option<i64>, /// for a typed call: (signature text, requested argument values; None for non-integers)
+    pub typed: Option<(String, Vec<Option<i64>>)> }
 
 pub const B_U16: &[i64] = &[0, 1, 2, 255, 256, 32767, 32768, 65535, 65536, 65537, 70000, 0x7fffffff];
 pub const B_U32: &[i64] = &[0, 1, 255, 65535, 65536, 0x7fffffff, 16, 512];
@@ -365,12 +385,33 @@ pub const B_TIME: &[i64] = &[0, 1, 10, 127, 128, 255, 256, 32767, 32768, 65535, 
 pub const B_OPCODE: &[i64] = &[0, 1, 2, 5, 127, 128, 255, 256, 300, 32767, 32768, 65534, 65535];
 pub const B_BLOBLEN: &[usize] = &[0, 4, 8, 12, 16, 248, 252, 256, 260, 65524, 65528, 65532, 65536];
 
+pub const B_ARG: &[i64] = &[0, 1, -1, 127, 128, -128, -129, 255, 256, 32767, 32768, -32768, -32769, 65535, 65536, 70000, 2147483647, -2147483648];
+
 fn raw_script(t: &mut Tape, fmt: Fmt, timeline: bool, th06_std: bool, no_mask: bool, max_instrs: usize) -> (String, Vec<ReqInstr>) {
+    raw_script_in(t, fmt, timeline, th06_std, no_mask, max_instrs, None)
+}
+
+fn raw_script_in(t: &mut Tape, fmt: Fmt, timeline: bool, th06_std: bool, no_mask: bool, max_instrs: usize, lang: Option<&RealLang>) -> (String, Vec<ReqInstr>) {
     let n = t.below(max_instrs + 1);
     let mut out = String::new();
     let mut req = vec![];
     let mut time: i64 = 0;
+    // typed calls: built-in instructions without jumps / strings / timeline arg0, arguments at the boundaries of 8/16/32-bit fields
+    let typed_ops: Vec<u16> = lang.map(|l| l.sigs.iter().filter(|(op, sig)| !l.intrinsic_ops.contains(op) && !sig.real_params().is_empty() && !sig.params.iter().any(|p| matches!(p.kind, PKind::Off | PKind::Time) || p.is_string() || p.arg0)).map(|(op, _)| *op).collect()).unwrap_or_default();
     for _ in 0..n {
+        if !typed_ops.is_empty() && t.chance(1, 2) {
+            let l = lang.unwrap();
+            let op = *t.pick(&typed_ops);
+            let sig = l.sigs[&op].clone();
+            let mut vals = vec![]; let mut texts = vec![];
+            for p in sig.real_params() {
+                if p.is_float() { vals.push(None); texts.push("1.5".to_string()); }
+                else { let v = if t.chance(2, 3) { *t.pick(B_ARG) } else { t.below(100) as i64 }; let v = if l.eosd_regs && (-10025..=-10001).contains(&v) { 7 } else { v }; vals.push(Some(v)); texts.push(format!("{}", v)); }
+            }
+            out.push_str(&format!("    ins_{}({});\n", op, texts.join(", ")));
+            req.push(ReqInstr { time, opcode: op as i64, blob: vec![], mask: None, arg0: None, typed: Some((sig.print(), vals)) });
+            continue;
+        }
         if t.chance(1, 3) { time = if t.chance(1, 2) { *t.pick(B_TIME) } else { t.below(200) as i64 }; out.push_str(&format!("{}:\n", time)); }
         let opcode = if t.chance(1, 2) { *t.pick(B_OPCODE) } else { 1 + t.below(60) as i64 };
         let len = if th06_std { 12 } else if t.chance(1, 6) { *t.pick(B_BLOBLEN) } else { 4 * t.below(5) };
@@ -383,7 +424,7 @@ fn raw_script(t: &mut Tape, fmt: Fmt, timeline: bool, th06_std: bool, no_mask: b
         if timeline && t.chance(1, 2) { let a = *t.pick(&[0i64, 1, 4, -1, 32767, 32768, 65535, -32768, -32769, 65536]); arg0 = Some(a); pseudo.push(format!("@arg0={}", a)); }
         pseudo.push(format!("@blob=\"{}\"", hex));
         out.push_str(&format!("    ins_{}({});\n", opcode, pseudo.join(", ")));
-        req.push(ReqInstr { time, opcode, blob, mask, arg0 });
+        req.push(ReqInstr { time, opcode, blob, mask, arg0, typed: None });
     }
     (out, req)
 }
@@ -408,7 +449,8 @@ pub fn gen_c03_file(t: &mut Tape, fmt: Fmt, game: &str, many: usize) -> C03File 
                 out.push_str(&format!("entry {{\n    path: \"a{}.png\",\n    has_data: false,\n    rt_width: {},\n    rt_height: {},\n    rt_format: {},\n    offset_x: {},\n    offset_y: {},\n    colorkey: {},\n    memory_priority: {},\n    sprites: {{{}}},\n}}\n\n",
                     e, u32b(t), u32b(t), u32b(t), u32b(t), u32b(t), if g < Game::Th07 { u32b(t) } else { 0 }, if g < Game::Th07 { 0 } else { u32b(t) }, sprites.join(", ")));
                 for _ in 0..t.below(3) {
-                    let (body, req) = raw_script(t, fmt, false, false, fmt == Fmt::Ecl && g == Game::Th06, 5);
+                    let lang = cached_lang(game, LanguageKey::Anm);
+                    let (body, req) = raw_script_in(t, fmt, false, false, false, 5, Some(&lang));
                     let id = if t.chance(1, 3) { format!("{} ", *t.pick(&[0i64, 5, 65535, 65536, 0x7fffffff, -1])) } else { String::new() };
                     out.push_str(&format!("script {}script{} {{\n{}}}\n\n", id, k, body));
                     scripts.push(req); k += 1;
@@ -435,8 +477,9 @@ pub fn gen_c03_file(t: &mut Tape, fmt: Fmt, game: &str, many: usize) -> C03File 
             let nrefs = if many > 0 { many } else { nscripts };
             let table: Vec<String> = (0..nrefs).map(|r| format!("        {}: {{script: \"script{}\"{}}}", r, r % nscripts, if with_flags && t.chance(1, 3) { format!(", flags: {}", u32b(t)) } else { String::new() })).collect();
             let mut out = format!("meta {{\n    table: {{\n{}\n    }},\n}}\n\n", table.join(",\n"));
+            let lang = cached_lang(game, if fmt == Fmt::Msg { LanguageKey::Msg } else { LanguageKey::End });
             for i in 0..nscripts {
-                let (body, req) = raw_script(t, fmt, false, false, fmt == Fmt::Ecl && g == Game::Th06, 5);
+                let (body, req) = raw_script_in(t, fmt, false, false, false, 5, Some(&lang));
                 out.push_str(&format!("script script{} {{\n{}}}\n\n", i, body));
                 scripts.push(req);
             }
@@ -461,7 +504,8 @@ pub fn gen_c03_file(t: &mut Tape, fmt: Fmt, game: &str, many: usize) -> C03File 
                 scripts.push(req);
             }
             for i in 0..nsubs {
-                let (body, req) = if many > 0 { (String::new(), vec![]) } else { raw_script(t, fmt, false, false, fmt == Fmt::Ecl && g == Game::Th06, 5) };
+                let lang = cached_lang(game, LanguageKey::Ecl);
+                let (body, req) = if many > 0 { (String::new(), vec![]) } else { raw_script_in(t, fmt, false, false, g == Game::Th06, 5, Some(&lang)) };
                 out.push_str(&format!("void sub{}() {{\n{}}}\n\n", i, body));
                 scripts.push(req);
             }
